@@ -260,6 +260,19 @@ def check(rep, ctx):
                           f"compare equal but are different instants; the second one is written with the first one's milliseconds",
                   file=m["file"], line=m["line"])
     rep.count(R_M, 1, instance="scan")
+    # no state outside the call: scratch buffers of the record writers are allocated per call
+    R_S = rep.rule("C17-call-local", "the batch/record writers keep no module-level or closure state (a scratch buffer shared between calls carries "
+                   "the bytes of a failed write into the next batch)", floor=0)
+    REC = ["kio.records.writers", "kio.records.readers", "kio.records.schema", "kio.records"]
+    for st_ in scan.module_state(ctx, REC):
+        if st_["kind"] in ("module-mutable", "global", "nonlocal"):
+            rep.check(R_S, False, construct=f"{st_['module']}:{st_['function']}", stmt=st_["stmt"],
+                      message=f"{st_['kind']}: {st_['name']} {st_['what']} -- state that outlives the call: after a write that failed part-way "
+                              f"the leftover bytes are emitted as the start of the next batch's first record", file=st_["file"], line=st_["line"])
+    for m_ in scan.captured_mutations(ctx, REC):
+        rep.check(R_S, False, construct=m_["function"], stmt=m_["stmt"], message=f"mutates {m_['name']!r} of the enclosing {m_['outer']}",
+                  file=m_["file"], line=m_["line"])
+    rep.count(R_S, len(REC), instance="scan")
     # the varint writer every record length / delta goes through emits canonical LEB128 for every value
     R_V = rep.rule("C17-varint", "every varint written for a record comes from a varint writer whose every path emits the canonical bytes "
                    "for every value that takes it (bit-vector proof, kverif/varint.py)", floor=1,
